@@ -15,6 +15,9 @@ from sa.xmlchemy_model import choice_prop
 RAW_METHODS = ("append", "insert", "addprevious", "addnext", "extend", "insert_element_before", "replace")
 
 
+LAST_T = None
+
+
 def _hints():
     p = os.path.join(VERIF, "hints.json")
     if os.path.exists(p):
@@ -94,7 +97,8 @@ def _positions_ok(S, tq, child, index_fn, bound=2, need=None):
 def run(ctx, prog, S, M, explicit):
     from checks.c10 import complex_types_for
 
-    T = Types(prog, M)
+    global LAST_T
+    T = LAST_T = Types(prog, M)
     hints = _hints().get("C10", {})
     ctx.rule("R10.raw", "hand-written tree insertions (append/insert/addprevious/addnext/insert_element_before) "
                         "place the child at a schema-valid position in every context")
@@ -459,3 +463,157 @@ def _decide_fresh(prog, M, S, ptag, seq, call, T, fc, why):
     if n == 0:
         return None
     return (okall, why)
+
+
+# -- R10.excl ------------------------------------------------------------------------------------------
+def exclusive_alternatives(prog, S, M, owner, tag):
+    """Declared children of `owner` that the schema never allows next to `tag` (alternatives of one choice)."""
+    from checks.c10 import complex_types_for
+
+    excl = set()
+    xq = prog.qn(tag)
+    for t in M.tags_for_class(owner) or tags_of_classes(prog, M, [owner]):
+        for tq in complex_types_for(S, prog.qn(t)):
+            if xq not in S.alphabet(tq):
+                continue
+            R = S.automaton(tq, relaxed=True)
+            if not R.accepts([xq]):
+                continue
+            for d in M.child_decls(owner):
+                for yt in getattr(d, "tags", None) or [d.tag]:
+                    yq = prog.qn(yt)
+                    if yq == xq or yq not in S.alphabet(tq):
+                        continue
+                    if R.accepts([yq]) and not R.accepts([xq, yq]) and not R.accepts([yq, xq]):
+                        excl.add(yt)
+    return excl
+
+
+def _removed_before(prog, M, f, call, recv_src, owner, excl):
+    """Alternatives removed on the same receiver before `call` in f (by _remove_<child>() or a group remover)."""
+    done = set()
+    groups = {d.prop: set(d.tags) for d in M.child_decls(owner) if d.kind == "ZeroOrOneChoice"}
+    for n in walk_own(f.node):
+        if isinstance(n, ast.Call) and isinstance(n.func, ast.Attribute) and n.func.attr.startswith("_remove_") \
+                and (n.lineno, n.col_offset) < (call.lineno, call.col_offset) and ast.unparse(n.func.value) == recv_src \
+                and _dominates(f.node, n, call):
+            what = n.func.attr[len("_remove_"):]
+            if what in groups:
+                done |= groups[what]
+            for y in excl:
+                if y.split(":")[1] == what or y.split(":")[1].rstrip("_") == what.rstrip("_"):
+                    done.add(y)
+    return done
+
+
+def _fresh_receiver(prog, M, T, f, fc, recv, ptags):
+    """Receiver is a local bound (once) to a just-created element: X._add_p() / _new_p() / OxmlElement / parse_xml, or
+    X.get_or_add_p() preceded by X._remove_p()."""
+    if not isinstance(recv, ast.Name):
+        return False
+    assigns = [n for n in walk_own(f.node) if isinstance(n, ast.Assign) and len(n.targets) == 1
+               and isinstance(n.targets[0], ast.Name) and n.targets[0].id == recv.id]
+    if len(assigns) != 1:
+        return False
+    v = assigns[0].value
+    while isinstance(v, ast.Call) and dotted(v.func) == "cast" and len(v.args) == 2:
+        v = v.args[1]
+    if not isinstance(v, ast.Call):
+        return False
+    d = dotted(v.func) or ""
+    last = d.split(".")[-1]
+    if last in ("OxmlElement", "parse_xml") or last.startswith(("_add_", "_new_", "new")):
+        return True
+    if last.startswith("get_or_add_") and isinstance(v.func, ast.Attribute):
+        child = last[len("get_or_add_"):]
+        base = ast.unparse(v.func.value)
+        for n in walk_own(f.node):
+            if isinstance(n, ast.Call) and isinstance(n.func, ast.Attribute) and n.func.attr == "_remove_" + child \
+                    and ast.unparse(n.func.value) == base and n.lineno < v.lineno and _dominates(f.node, n, assigns[0]):
+                return True
+    return False
+
+
+def _dominates(fnode, early, late):
+    """Statement containing `early` is an earlier statement of a block that (transitively) contains `late`."""
+    def blocks(node):
+        for fld in ("body", "orelse", "finalbody"):
+            b = getattr(node, fld, None)
+            if isinstance(b, list) and b and isinstance(b[0], ast.stmt):
+                yield b
+        for h in getattr(node, "handlers", []) or []:
+            yield h.body
+
+    def contains(st, target):
+        return any(x is target for x in ast.walk(st))
+
+    def search(block):
+        for i, st in enumerate(block):
+            if contains(st, late):
+                # early must be a whole earlier statement of this block (not nested in a conditional)
+                for e in block[:i]:
+                    if isinstance(e, ast.Expr) and contains(e, early):
+                        return True
+                for b in blocks(st):
+                    if search(b):
+                        return True
+                return False
+        return False
+
+    return search(fnode.body)
+
+
+def run_excl(ctx, prog, S, M, T):
+    ctx.rule("R10.excl", "an alternative of a schema choice is added only after its declared exclusive siblings were removed "
+                         "(or on a just-created parent)")
+    n = 0
+    seen = set()
+    for f in prog.all_functions():
+        fc = FCtx(f)
+        for c in walk_own(f.node):
+            if not (isinstance(c, ast.Call) and isinstance(c.func, ast.Attribute)
+                    and c.func.attr.startswith(("get_or_add_", "_add_", "_insert_"))):
+                continue
+            bt = T.expr(c.func.value, fc)
+            for a in T.member(bt, c.func.attr, fc, node=c.func):
+                if a[0] != "gen":
+                    continue
+                decl, tag = a[2], a[3]
+                owners = [x[1] for x in bt if x[0] == "inst" and M.is_oxml_class(x[1]) and decl.cls in prog.mro(x[1])] or [decl.cls]
+                for o in owners:
+                    excl = exclusive_alternatives(prog, S, M, o, tag)
+                    if not excl:
+                        continue
+                    key = "%s@%s on %s" % (f.qualname, ast.unparse(c.func), o.name)
+                    if key in seen:
+                        continue
+                    seen.add(key)
+                    n += 1
+                    recv_src = ast.unparse(c.func.value)
+                    done = _removed_before(prog, M, f, c, recv_src, o, excl)
+                    left = excl - done
+                    why = None
+                    if not left:
+                        why = "removes %s first" % sorted(excl)
+                    elif _fresh_receiver(prog, M, T, f, fc, c.func.value, None):
+                        why = "parent `%s` was created in this function" % recv_src
+                    elif recv_src == "self" and f.cls is not None:
+                        # every caller invokes this method on a fresh receiver
+                        callers = []
+                        for g in prog.all_functions():
+                            gc = FCtx(g)
+                            for cc in walk_own(g.node):
+                                if isinstance(cc, ast.Call) and isinstance(cc.func, ast.Attribute) and cc.func.attr == f.name and g is not f:
+                                    rt = T.expr(cc.func.value, gc)
+                                    if any(x[0] == "inst" and f.cls in prog.mro(x[1]) for x in rt):
+                                        callers.append(_fresh_receiver(prog, M, T, g, gc, cc.func.value, None))
+                        if callers and all(callers):
+                            why = "every caller (%d) invokes %s on a parent it has just created" % (len(callers), f.name)
+                    if why:
+                        ctx.ok("R10.excl", key, sample={"site": "%s:%d" % (f.file, c.lineno), "adds": tag, "exclusive_with": sorted(excl), "safe_because": why})
+                    else:
+                        ctx.violation("R10.excl", key, "<%s> is added to <%s> while its schema alternative(s) %s may still be present: the "
+                                      "parent then holds two members of one choice (schema-invalid, and readers prefer one of them)" % (
+                                          tag, "/".join(M.tags_for_class(o) or tags_of_classes(prog, M, [o]))[:40], sorted(left)),
+                                      file=f.file, line=c.lineno)
+    ctx.count("exclusive_add_sites", n)
